@@ -880,6 +880,7 @@ func derivesFromParamSlice(v ssa.Value, fn *ssa.Function, seen map[ssa.Value]boo
 const isLastLit = "($1 == builtin:len($0.statements)-1)"
 
 func c01b(c *Ctx) {
+	c01bScan(c)
 	fn := c.Fn("emitter.Emitter.emitScriptStatement")
 	split := c.Fn("emitter.chunk.splitChunkForBranch")
 	if fn == nil || split == nil {
@@ -1289,4 +1290,55 @@ func isASTType(t types.Type) bool {
 		return x.Obj().Pkg() != nil && strings.HasSuffix(x.Obj().Pkg().Path(), "/ast")
 	}
 	return false
+}
+
+// c01bScan: the index at which the work list looks for a control statement is "the first
+// statement that is neither a label nor a command". The scan that computes it leaves its loop in
+// the middle for two reasons only: the statement at hand is neither (the command assertion
+// failed), or it is the final end / return (the early exit). Any other way out — after a global
+// label, say — leaves a label or command at the index, which no arm of the dispatch handles: the
+// rest of the chunk is dropped.
+func c01bScan(c *Ctx) {
+	fn := c.Fn("emitter.Emitter.emitScriptStatement")
+	if fn == nil {
+		return
+	}
+	n := 0
+	instrs(fn, func(in ssa.Instruction) {
+		ta, ok := in.(*ssa.TypeAssert)
+		if !ok || !ta.CommaOk || !typeIs(ta.AssertedType, "ast", "LabelStatement") {
+			return
+		}
+		h := loopHeaders(fn)[ta.Block()]
+		if h == nil {
+			return
+		}
+		body := loopBody(h)
+		n++
+		k := 0
+		for _, b := range fn.Blocks {
+			if b == h || !body[b] {
+				continue
+			}
+			for si, sc := range b.Succs {
+				if body[sc] {
+					continue
+				}
+				k++
+				must := c.edgeMust(fn, b, sc)
+				_ = si
+				okExit := false
+				for _, l := range must {
+					if strings.HasPrefix(l, "-assert<*ast.CommandStatement>(") && strings.HasSuffix(l, "#1") {
+						okExit = true // neither a label nor a command
+					}
+					if strings.Contains(l, `.Name.Value == "end")`) || strings.Contains(l, `.Name.Value == "return")`) {
+						okExit = true // the early exit (judged by C01.g)
+					}
+				}
+				c.Check(okExit, fmt.Sprintf("emitScriptStatement/scan-exit#%d", k), c.W.Pos(b.Instrs[len(b.Instrs)-1].Pos()), "the scan stops at a statement that is neither a label nor a command (or at the final end / return)", "the scan over labels and commands is left under "+fmt.Sprint(prettyAll(must))+": the statement at the index it leaves behind may be a label or a command, which the dispatch that follows does not handle — the rest of the chunk would be dropped")
+			}
+		}
+	})
+	c.Check(n == 1, "emitScriptStatement/scan-loop", c.W.FuncPos(fn), "the scan over labels and commands was found", fmt.Sprintf("found %d loops asserting label statements in emitScriptStatement, expected 1", n))
 }
